@@ -1007,40 +1007,6 @@ fn main() {
     for n in &stride_notes {
         cx.note(format!("fault indices — {n}"));
     }
-    let pick = |all: &bool| if *all { &all_faults } else { &quick_faults };
-    cx.run_cases("faults", &fjobs, |j| {
-        let mut out = CaseOut::batch();
-        let op = match j {
-            FJob::Z(c, k, idxs, all) => {
-                vgad::explore_faults(c, *k, idxs, pick(all), &mut out);
-                c.op()
-            }
-            FJob::PosVar(c, k, idxs, all) => {
-                fs::explore_faults(c, *k, idxs, pick(all), &mut out);
-                rename_filler_fault_viols(c, *k, &c.data, &all_faults, &mut out);
-                fs::FsCase::op(c)
-            }
-            FJob::Sponge(c, k, idxs, all) => {
-                fs::explore_faults(c, *k, idxs, pick(all), &mut out);
-                fs::FsCase::op(c)
-            }
-            FJob::ShaVar(c, k, idxs, all) => {
-                fs::explore_faults(c, *k, idxs, pick(all), &mut out);
-                let data: Vec<F> = c.data.iter().map(|b| F::from(*b as u64)).collect();
-                rename_filler_fault_viols(c, *k, &data, &all_faults, &mut out);
-                fs::FsCase::op(c)
-            }
-            FJob::Rip(c, k, idxs, all) => {
-                fs::explore_faults(c, *k, idxs, pick(all), &mut out);
-                fs::FsCase::op(c)
-            }
-        };
-        for c in out.classes.iter_mut() {
-            c.0 = format!("{op}/{}", c.0);
-        }
-        out
-    });
-
     // ---- phase E: region-local alternative-witness search (vgad::laws). For every region of the
     // one-block SHA-256 circuit (quick: the first instances of every region name), every set of
     // <= 3 lookup rows is answered with neighbouring rows of the actual table, gates are repaired
@@ -1076,6 +1042,40 @@ fn main() {
             out
         });
     }
+
+    let pick = |all: &bool| if *all { &all_faults } else { &quick_faults };
+    cx.run_cases("faults", &fjobs, |j| {
+        let mut out = CaseOut::batch();
+        let op = match j {
+            FJob::Z(c, k, idxs, all) => {
+                vgad::explore_faults(c, *k, idxs, pick(all), &mut out);
+                c.op()
+            }
+            FJob::PosVar(c, k, idxs, all) => {
+                fs::explore_faults(c, *k, idxs, pick(all), &mut out);
+                rename_filler_fault_viols(c, *k, &c.data, &all_faults, &mut out);
+                fs::FsCase::op(c)
+            }
+            FJob::Sponge(c, k, idxs, all) => {
+                fs::explore_faults(c, *k, idxs, pick(all), &mut out);
+                fs::FsCase::op(c)
+            }
+            FJob::ShaVar(c, k, idxs, all) => {
+                fs::explore_faults(c, *k, idxs, pick(all), &mut out);
+                let data: Vec<F> = c.data.iter().map(|b| F::from(*b as u64)).collect();
+                rename_filler_fault_viols(c, *k, &data, &all_faults, &mut out);
+                fs::FsCase::op(c)
+            }
+            FJob::Rip(c, k, idxs, all) => {
+                fs::explore_faults(c, *k, idxs, pick(all), &mut out);
+                fs::FsCase::op(c)
+            }
+        };
+        for c in out.classes.iter_mut() {
+            c.0 = format!("{op}/{}", c.0);
+        }
+        out
+    });
 
     // ---- timings (evidence only)
     {
